@@ -34,7 +34,7 @@ RULE = ("pipelines ctf (Waves.apply_ctf by kwargs / CTF object, Aberrations, Ape
         "two members compared with scalar runs that differ from each other; distinct = distinct case signature")
 CLAUSES = ["member:values", "axis-found", "axis-values", "axis-length", "mean:values", "mean-axis-removed",
            "waves-keep-mean-axis", "ensemble-run-completes", "position-axis"]
-QUICK = dict(n=46, time=50)
+QUICK = dict(n=40, time=40)
 THOROUGH = dict(n=1300, time=420, shards=16)
 
 # ---- own copy of the polar aberration table (symbol order = axis order is NOT assumed anywhere)
@@ -200,7 +200,7 @@ def gen(rng, tier):
                                          allow_mean=measured or rng.random() < 0.3,
                                          forms=["from_values", "list", "ndarray", "uniform"] if name != "tilt" else ["from_values"]))
     else:
-        method = str(rng.choice(["build", "multislice", "multislice", "multislice"]))
+        method = str(rng.choice(["build", "multislice", "multislice", "scan"]))
         case["method"] = method
         case["ctor"] = str(rng.choice(["kwargs", "kwargs", "objects"]))
         tilt_names = {"x": ["tilt_x"], "y": ["tilt_y"], "xy": ["tilt_x", "tilt_y"], "nx2": ["tilt"], "none": []}
@@ -231,6 +231,8 @@ def gen(rng, tier):
             case["fixed"]["C10"] = float(rng.uniform(-80, 80))
         case["scan_kind"] = str(rng.choice(["custom", "custom", "line", "grid"])) if "positions" in names else \
             str(rng.choice(["none", "point"]))
+        if method == "scan" and case["scan_kind"] == "none":
+            case["scan_kind"] = "point"          # Probe.scan without a scan rasters the whole cell
         case["scan_endpoint"] = bool(rng.random() < 0.5)
         case["detector"] = "none" if method == "build" else str(rng.choice(["none", "annular", "flexible", "pixelated",
                                                                             "segmented"]))
@@ -291,6 +293,12 @@ def fixed_cases(tier):
     out.append(dict(ctf, target="CTF", lazy=True, extra_axis=True, measure="waves",
                     params=[P("astigmatism_angle", [0.3, -1.2]), P("astigmatism", [50.0, -80.0]),
                             P("semiangle_cutoff", [10.0, 22.0])], fixed={}))
+    out.append(dict(ctf, target="CTF", measure="diffraction", fixed={"C10": -40.0},
+                    params=[P("focal_spread", [30.0, 8.0, 55.0]), P("semiangle_cutoff", [22.0, 9.0])]))
+    out.append(dict(ctf, target="kwargs", measure="waves", lazy=True, fixed={"C10": 70.0, "C30": -1e5},
+                    params=[P("semiangle_cutoff", [22.0, 9.0]), P("focal_spread", [30.0, 8.0]), P("angular_spread", [2.5, 0.4])]))
+    out.append(dict(ctf, target="Aberrations", measure="waves", fixed={},       # waves are never averaged
+                    params=[P("C30", [1e5, -2e5, 0.0], mean=True), P("defocus", [25.0, -60.0])]))
     plane = dict(base, pipeline="plane", tilt_form="xy", fixed_tilt=[0.0, 0.0], ctf_names=["defocus"], detector="none",
                  measure="intensity", fixed={})
     out.append(dict(plane, params=[P("tilt_x", [-12.0, 7.0, 0.0]), P("tilt_y", [4.0, -9.0]), P("defocus", [100.0, -50.0], mean=True)]))
@@ -498,7 +506,8 @@ class Pipeline:
                     out = probe.build(scan=scan, lazy=lazy, max_batch=max_batch)
                 else:
                     det = _detector(case, min(probe.cutoff_angles))
-                    out = probe.multislice(self.pot, scan=scan, detectors=det, lazy=lazy, max_batch=max_batch)
+                    run = probe.scan if case["method"] == "scan" else probe.multislice
+                    out = run(self.pot, scan=scan, detectors=det, lazy=lazy, max_batch=max_batch)
             if hasattr(out, "compute") and getattr(out, "is_lazy", False):
                 out = out.compute(scheduler="synchronous" if max_batch == 1 else "threads")
         return out
